@@ -688,6 +688,9 @@ class RenameDetector:
             old = sha_deletes[0][0]
             if num_extra_adds > 0:
                 for new in sha_adds[-num_extra_adds:]:
+                    assert old.mode is not None and new.mode is not None
+                    if stat.S_IFMT(old.mode) != stat.S_IFMT(new.mode):
+                        continue
                     assert new.path is not None
                     add_paths.add(new.path)
                     self._changes.append(TreeChange(CHANGE_COPY, old, new))
